@@ -305,9 +305,11 @@ def export_slice(slize: Slice) -> vckt.Slice:
 
 
 def export_concat(concat: Concat) -> vckt.Concat:
-    """Export (potentially recursive) Signal Concatenations"""
+    """Export (potentially recursive) Signal Concatenations.
+    Hdl21 lists the least-significant part first. VLSIR, as read by each of its netlisters,
+    lists the most-significant part first, in the same order in which it expands bus signals."""
     pconc = vckt.Concat()
-    for part in concat.parts:
+    for part in reversed(concat.parts):
         pconc.parts.append(export_connection_target(part))
     return pconc
 
